@@ -22,6 +22,31 @@ SERIAL_ONLY = 'parallel_handlers=True buses: the task-per-handler branch of _exe
 HANDLER_MODEL = 'handlers are arbitrary user code: may call any public API, suspend, return anything, raise any Exception or CancelledError'
 
 PROPERTIES = {
+    'C15': {
+        'functions': ['EventBus.wait_until_idle', 'EventBus.step', 'EventBus._get_next_event', 'EventBus._run_loop', 'EventBus.dispatch', 'EventBus._start',
+                      'CleanShutdownQueue.put_nowait', 'CleanShutdownQueue.get_nowait', 'EventBus.events_pending', 'EventBus.events_started', 'EventBus.process_event'],
+        'level': 'other',
+        'trusted_base': [AX[k] for k in ('A1', 'A2', 'A3', 'A5', 'A6', 'A8', 'A10', 'X1', 'X2')] + [SERIAL_ONLY,
+            'queue accounting as an assume-guarantee invariant: every task keeps unfinished >= queued + (events it took and has not task_done()d) at its suspension points',
+            'a dequeued event may be dropped without task_done() only when the bus is being stopped (_is_running already False) or the run-loop task is cancelled while polling'],
+        'not_decided': ['"it does return once that is the case": liveness of the 0.1 s poll that raises the idle flag; only its safety core is decided '
+                        '(flag raised only when nothing is queued/pending/started; task_done() on every exit path; join() can only block on unbalanced accounting)',
+                        'the inline-processing loop of BaseEvent.__await__ (second dequeue site) is not under contract yet'],
+        'assumptions': [],
+    },
+    'C16': {
+        'functions': ['EventBus.stop', 'EventBus.wait_until_idle', 'EventBus._run_loop', 'EventBus._get_next_event', 'EventBus.step', 'CleanShutdownQueue.shutdown',
+                      'EventBus._check_total_memory_usage', 'EventBus._execute_handlers', 'EventBus.execute_handler', 'EventBus._default_wal_handler', 'EventBus.expect'],
+        'trusted_base': [AX[k] for k in ('A1', 'A2', 'A3', 'A5', 'A8', 'X1', 'X2')] + [SERIAL_ONLY,
+            'bounded = every suspension point of stop()/wait_until_idle(timeout) is an asyncio wait with a non-None timeout (A3 bounds each by its timeout); the number of polling iterations is not bounded here (P4)',
+            'cancellation: a CancelledError delivered at any suspension point of _get_next_event / wait_until_idle / stop / expect / _default_wal_handler leaves the function as CancelledError; '
+            'the run loop makes no further step() after one was delivered',
+            'the loop-close hook (close_with_cleanup in _start) is not verified'],
+        'not_decided': ['"after stop() returns no handler of that bus starts": decided for the run loop (it ends on cancellation / sees _is_running False); the inline-processing loop of BaseEvent.__await__ '
+                        '(finding G3: it also drains queues of stopped buses) is not under contract yet',
+                        'wall-clock bound of stop(): sum of the given timeout and 0.1 s, per A3'],
+        'assumptions': [],
+    },
     'C18': {
         'functions': ['EventBus.expect', 'EventBus.expect.notify', 'EventBus.on', 'EventBus._get_applicable_handlers', 'EventBus._would_create_loop', 'bubus.get_handler_id',
                       'EventBus._handler_dispatched_ancestor'],
@@ -88,7 +113,8 @@ PROPERTIES = {
     },
     'C08': {
         'functions': ['EventBus.process_event', 'EventResult.update', 'BaseEvent.event_result_update', 'BaseEvent.event_mark_complete_if_all_handlers_completed',
-                      'BaseEvent.event_completed_at', 'BaseEvent.event_started_at', 'BaseEvent.event_status', 'BaseEvent.event_completed_signal'],
+                      'BaseEvent.event_completed_at', 'BaseEvent.event_started_at', 'BaseEvent.event_status', 'BaseEvent.event_completed_signal',
+                      'BaseEvent.event_cancel_pending_child_processing', 'BaseEvent.event_children'],
         'level': 'other',
         'trusted_base': [AX[k] for k in ('A1', 'A6', 'A10', 'X1', 'X2')],
         'not_decided': ['the two-state invariant "signalled => results frozen" is decided through its writer-side obligations only: no result is created on a signalled event (fails: F4), '
